@@ -202,6 +202,13 @@ class OverflowHooks(Hooks):
         else:
             ps = [lo1 * lo2, lo1 * hi2, hi1 * lo2, hi1 * hi2]
             lo, hi = min(ps), max(ps)
+        # what the analysis knows about the node as a whole (x - c * (x / c), c * (x / c)) may be tighter than its operands give
+        n_ = len(ai.obligations)
+        w_ = ai.lin(e, st)
+        del ai.obligations[n_:]
+        if w_[0] in ('qmul', 'rem'):
+            wlo, whi = ai.range_of(w_, st)
+            lo, hi = max(lo, wlo), min(hi, whi)
         key = (e.loc, show(e))
         ok = I32[0] <= lo and hi <= I32[1]
         prev = self.sites.get(key)
